@@ -1199,10 +1199,10 @@ func (c *Conn) Close() error {
 		if err := c.closeNotify(); err != nil {
 			alertErr = fmt.Errorf("tlcp: failed to send closeNotify alert (but connection was closed anyway): %w", err)
 		}
+		// 对工作密钥置零。仅在握手完成后进行：此前握手流程（establishKeys）仍可能在另一个
+		// goroutine 中写入 workKey，无锁置零会与之竞争。
+		c.zeroWorkKey()
 	}
-	// 对工作密钥置零
-	setZero(c.workKey)
-	c.workKey = nil
 
 	if err := c.conn.Close(); err != nil {
 		return err
@@ -1211,6 +1211,14 @@ func (c *Conn) Close() error {
 }
 
 var errEarlyCloseWrite = errors.New("tlcp: CloseWrite called before handshake complete")
+
+// zeroWorkKey 对工作密钥置零。在写方向的锁内进行，与握手完成后使用密钥的写路径互斥。
+func (c *Conn) zeroWorkKey() {
+	c.out.Lock()
+	defer c.out.Unlock()
+	setZero(c.workKey)
+	c.workKey = nil
+}
 
 // CloseWrite shuts down the writing side of the connection. It should only be
 // called once the handshake has completed and does not call CloseWrite on the
